@@ -276,6 +276,15 @@ impl<'a, 'tcx> BodyCx<'a, 'tcx> {
 
     fn scalar_of(&self, c: &mir::Const<'tcx>) -> Option<String> {
         let ty = c.ty();
+        if ty.is_floating_point() {
+            let si = c.try_eval_scalar_int(self.tcx(), self.env)?;
+            let bits = si.to_uint(si.size());
+            return match si.size().bytes() {
+                4 => Some(format!("{}", f32::from_bits(bits as u32))),
+                8 => Some(format!("{}", f64::from_bits(bits as u64))),
+                _ => None,
+            };
+        }
         if !(ty.is_integral() || ty.is_bool() || ty.is_char()) {
             return None;
         }
@@ -670,6 +679,12 @@ fn dump_body<'tcx>(cx: &Cx<'tcx>, ldid: LocalDefId, out: &mut String, stats: &mu
             }
         }
         DefKind::SyntheticCoroutineBody => "coroutine",
+        DefKind::Const { .. } | DefKind::AssocConst { .. } => {
+            if tcx.is_trivial_const(did) {
+                return;
+            }
+            "const"
+        }
         _ => return,
     };
     let def_span = tcx.def_span(did);
@@ -690,6 +705,9 @@ fn dump_body<'tcx>(cx: &Cx<'tcx>, ldid: LocalDefId, out: &mut String, stats: &mu
         pre = true;
         stolen = false;
         b
+    } else if kind == "const" {
+        stolen = false;
+        tcx.mir_for_ctfe(did)
     } else if stolen {
         stats.optimized_fallback += 1;
         tcx.optimized_mir(did)
